@@ -656,7 +656,7 @@ func runCase(c Case) (o *h.Outcome) {
 	return o
 }
 
-const rule = "scenario programs for two honest clients (real client.Client, real local.Watcher) over the strict reference ledger with a logical clock and the scripted FIFO bus: 1-3 assets, initial balances, optional funding agreement with another split, challenge duration, proposer, serializer (none/native/protobuf), 0-12 steps {payment either way incl. amounts above the balance (must fail locally), accept/reject decision, open sub-channel (incl. more funds than the parent holds: must fail), payment inside the sub-channel, finalise+close sub-channel, finalise the sub-channel and settle it only after further parent activity}, last state final or not, settle order (A first / B first / concurrent), secondary flags. Oracle: every honest operation returns nil; funding debits exactly the agreed amounts; after both Settle calls each party's account grew by exactly its balance in the last state enabled by BOTH recording persisters (+ its balance in the last agreed state of a still-open sub-channel); holdings are zero; per-asset conservation after every ledger call; the ledger never had to refuse a call (signatures, versions, sub-channel tree, unregistered non-final withdraw). non-trivial = at least one accepted balance-changing update and one of {rejected update, dispute path (register + timeout), sub-channel, several assets}"
+const rule = "scenario programs for two honest clients (real client.Client, real local.Watcher) over the strict reference ledger with a logical clock and the scripted FIFO bus: 1-3 assets, initial balances, optional funding agreement with another split, challenge duration, proposer, serializer (none/native/protobuf), 0-12 steps {payment either way incl. amounts above the balance (must fail locally), accept/reject decision, open sub-channel (incl. more funds than the parent holds: must fail), payment inside the sub-channel, finalise+close sub-channel, finalise the sub-channel and settle it only after further parent activity}, last state final or not, settle order (A first / B first / concurrent), secondary flags. Oracle: every honest operation returns nil; funding debits exactly the agreed amounts; after both Settle calls each party's account grew by exactly its balance in the last state enabled by BOTH recording persisters (+ its balance in the last agreed state of a still-open sub-channel); holdings are zero; per-asset conservation after every ledger call; the ledger never had to refuse a call (signatures, versions, sub-channel tree, unregistered non-final withdraw). Also generated: a settlement attempt that times out and is repeated, a second sub-channel, a transient ledger fault on the first Withdraw with a repeated Settle, parties that never call Watch (a fifth of the scenarios; the reference ledger refuses to register a concluded channel), and Settle contexts whose first Done() calls take 60-1500 us. non-trivial = at least one accepted balance-changing update and one of {rejected update, dispute path (register + timeout), sub-channel, several assets}"
 
 func TestSettlement(t *testing.T) {
 	rec := h.Begin("C03", "")
